@@ -13,7 +13,7 @@ statements are phrased over `view s` (`Lemmas/ClientIds.lean`); `reqIds` / `canc
 code does not, so the statements that relate the in-flight table to the wire are made for `poisoned = false`.
 
 The monitor theorem covers the first two clauses of `checkC03` (no request after abandonment; preconditions of
-every cancel).  The third clause (a cancel is owed after a writable dispatch poll) stays a statement.
+every cancel).  The third clause (a cancel is owed after a writable dispatch poll that goes idle) is proved in `Props/C03Full.lean` (`C03_cancel_owed : C03FullStatement`).
 -/
 namespace TarpcModel.Client
 
